@@ -150,6 +150,13 @@ def generate(rng, tier):
         if rng.random() < 0.3: piece = piece[::-1]
         nodes = [[piece[0], piece[0], piece[1]], [piece[2], piece[3], piece[3]]]
         cases.append({"nodes": nodes, "flat": flat, "exact": False, "eps_rel": 2.0 ** -44, "family": "deep-narrow-out-and-back"})
+    # the same shapes at microscopic and at huge scale (coordinates and flatness multiplied by one power of two: the float run stays
+    # exact): flatness is whatever positive number the caller gives, 2^-24 or 2^-60 as much as 0.5
+    for _ in range(max(10, n // 12)):
+        k = rng.choice([-60, -40, -30, -24, -20, 30, 100]); sc = F(2) ** k
+        nodes = [[(h[0] * sc, h[1] * sc) for h in nd] for nd in _nodes(rng, "grid")]
+        flat = F(rng.choice([1, 2, 4, 8, 16])) / rng.choice([1, 2, 4]) * sc
+        cases.append({"nodes": nodes, "flat": flat, "exact": True, "family": "scaled-by-2^%d" % k})
     for _ in range(n // 6):
         nodes = _far_nodes(rng)
         cases.append({"nodes": nodes, "flat": F(1, 2 ** rng.choice([13, 12, 11, 10])), "exact": True, "family": "far-from-origin/n=%d" % len(nodes)})
